@@ -40,7 +40,7 @@ def world_for(combo):
             'roots': [{'cfg': 0, 'overrides': None}], 'no_json': False}
 
 
-def _base(combo, fault, hs2=1):
+def _base(combo, fault, hs2=1, post=None):
     """scenario skeleton; `fault` is merged into the judged request"""
     w = world_for(combo)
     ops = []
@@ -68,8 +68,15 @@ def _base(combo, fault, hs2=1):
             p0.append(op(op='ls', store='main', expect='error_dirs'))
         p0.append(op(op='req', cid='c0', task='grp:target', name='grp:target'))
         p0.append(op(op='disarm'))
-    p1 = [op(op='build', cid='c1', root=0, render={'form': 'mem'}, pmode=True, store='main'),
-          op(op='insp', cid='c1', kind='has_data'),
+    p1 = [op(op='build', cid='c1', root=0, render={'form': 'mem'}, pmode=True, store='main')]
+    if post == 'delete':
+        # the result is explicitly deleted after the fault; nothing of an earlier/interrupted attempt may come back
+        p1 += [op(op='tforce', cid='c1', task='grp:target', name='grp:target', delete=True),
+               op(op='build', cid='c1', root=0, render={'form': 'mem'}, pmode=True, store='main')]
+    elif post == 'reforce':
+        # a later forced recomputation has to work whatever the interrupted one left behind
+        p1 += [op(op='tforce', cid='c1', task='grp:target', name='grp:target', delete=False)]
+    p1 += [op(op='insp', cid='c1', kind='has_data'),
           op(op='req', cid='c1', task='grp:target', name='grp:target'),
           op(op='req', cid='c1', task='upper', name='upper'),
           op(op='insp', cid='c1', kind='has_data')]
@@ -93,6 +100,9 @@ def expand(combo, count_obs):
         out.append(_base(combo, {'crash': {'k': k, 'tear': None}}))
         if k < n:
             out.append(_base(combo, {'crash': {'k': k, 'tear': None, 'when': 'after'}}))
+        if combo['forced']:
+            out.append(_base(combo, {'crash': {'k': k, 'tear': None}}, post='delete'))
+            out.append(_base(combo, {'crash': {'k': k, 'tear': None}}, post='reforce'))
         if k > 0 and muts[k - 1][0] == 'wopen':
             for t in TEARS:
                 out.append(_base(combo, {'crash': {'k': k, 'tear': dict(t)}}, hs2=2))
